@@ -54,8 +54,8 @@ func randInt(r *Rng) int64 { return intValues[r.Intn(len(intValues))] }
 // leaf kinds by family
 var scalarKinds = []string{"bool", "int", "int8", "int16", "int32", "int64", "uint", "uint8", "uint16", "uint32", "uint64", "uintptr",
 	"float32", "float64", "complex64", "complex128", "string", "bytes", "NInt", "NStr", "NBool", "NFloat", "NBytes", "NUint8", "barr", "nil"}
-var pointerKinds = []string{"ptrInt", "nilPtrInt", "ptrStr", "nilMap", "nilSlice", "nilChan", "nilFunc"}
-var addrKinds = []string{"chan", "func", "uptr"}
+var pointerKinds = []string{"ptrInt", "nilPtrInt", "ptrStr", "nilMap", "nilSlice", "nilChan", "nilFunc", "ptrptr", "parr", "iarr", "sarr", "SArr", "SNils", "NFunc"}
+var addrKinds = []string{"chan", "func", "uptr", "NChan"}
 var methodKinds = []string{"Stringer", "PStringer", "NilPStringer", "PStringerVal", "Err", "StdErr", "WrapErr", "PErr", "NilPErr", "ErrStringer",
 	"GoStringer", "GoStrStringer", "Fmter", "ErrFmter", "FmtFlags"}
 var panicKinds = []string{"PanicStringer", "PanicErr", "PanicGoStr", "PanicFmter"}
@@ -84,7 +84,7 @@ func randLeaf(r *Rng, o genOpts) *D {
 func leafOfKind(r *Rng, k string, o genOpts) *D {
 	d := &D{K: k}
 	switch k {
-	case "nil", "nilPtrInt", "nilMap", "nilSlice", "nilChan", "nilFunc", "chan", "func", "uptr", "NilPStringer", "NilPErr":
+	case "nil", "nilPtrInt", "nilMap", "nilSlice", "nilChan", "nilFunc", "chan", "func", "uptr", "NilPStringer", "NilPErr", "SNils", "NFunc", "NChan":
 	case "bool", "NBool":
 		d.N = int64(r.Intn(2))
 	case "float32", "float64", "NFloat", "SVFloat", "ISafeFloat":
@@ -98,7 +98,10 @@ func leafOfKind(r *Rng, k string, o genOpts) *D {
 		if r.Chance(1, 5) {
 			d.S = QS([]string{"NaN", "+Inf", "-Inf", "-0"}[r.Intn(4)])
 		}
-	case "string", "NStr", "bytes", "NBytes", "barr", "ptrStr", "Stringer", "PStringer", "PStringerVal", "Err", "StdErr", "WrapErr", "PErr", "ErrStringer",
+	case "SArr":
+		d.S = QS(randPayload(r, o))
+		d.N = randInt(r)
+	case "string", "NStr", "bytes", "NBytes", "barr", "ptrStr", "parr", "sarr", "Stringer", "PStringer", "PStringerVal", "Err", "StdErr", "WrapErr", "PErr", "ErrStringer",
 		"GoStringer", "GoStrStringer", "Fmter", "ErrFmter", "SVStr", "SVBytes", "SVStringer", "ISafeString", "ISafeBytes", "RegStr", "SafeMsg":
 		d.S = QS(randPayload(r, o))
 		if k == "bytes" && r.Chance(1, 15) {
